@@ -1,6 +1,6 @@
 (* C08 - enum values are exactly the accepted set.
    Statements only; every proof is `exact <lemma>`; Print Assumptions under each. *)
-From GJS Require Import Base Regex Schema GoType Gen Exec Valid ExecP GenP CoreP.
+From GJS Require Import Base Regex Schema GoType Gen Exec Valid ExecP GenP CoreP LevelP NestedP.
 
 (* the enum method decodes into the carrier and accepts iff reflect.DeepEqual finds the value in the table *)
 Theorem C08_non_member : forall fmt_ok env f name c w vals j,
@@ -37,3 +37,14 @@ Proof. exists KI8, 1%Z. reflexivity. Qed.
 Theorem C08_refuted_null_zero : exists vals, is_ok (dec (fun _ _ => true) [] 5 (TEnum [69]%N (TInt KInt) false vals) JNull) = true
   /\ existsb (json_eqb JNull) [JInt 0; JInt 10] = false.
 Proof. exists [EVInt 0; EVInt 10]. vm_compute. split; reflexivity. Qed.
+
+(* end to end: a string enum as a property of an object (at any nesting depth, C02_nested_objects_exact with [enum_leaf] among the leaves): the
+   declared struct accepts the document iff the value is one of the listed strings.  Instance: {c: enum [r, g], required} on a member, a
+   non-member string, a number and the empty object *)
+Theorem C08_enum_objects_inhabited :
+  exists t b, gen (fun s => s) (mkCfg false false) [] (fuelG 0 2) MDeclared None false ex_enum_obj [82]%N = Done (t, b) /\
+    (forall kv, In kv ex_enum_docs ->
+       is_ok (dec (fun _ _ => true) [] (fuelD 0 0) t (JObj kv)) = valid (fun _ _ => true) [] (fuelV 0 0) ex_enum_obj (JObj kv)) /\
+    map (fun kv => valid (fun _ _ => true) [] (fuelV 0 0) ex_enum_obj (JObj kv)) ex_enum_docs = [true; false; false; false].
+Proof. exact enum_inhabited. Qed.
+Print Assumptions C08_enum_objects_inhabited.
